@@ -17,12 +17,14 @@ func init() {
 			ID: "C34", Title: "API route conversion preserves what the API carries", Level: "other",
 			Technique:   "writer/reader field agreement (R-PAIR) between each ToProto function and its FromProto counterpart over the generated API message types; read-before-write check on the freshly created destination object; exhaustiveness of the hidden-reason mapping; no-store-after-intern rule for the attribute cache",
 			DesignRef:   "DESIGN.md §4 C34",
-			Decided:     "(1) for every pair (ToProto, FromProto) of route, path, BGP path, static path, prefix, IP, AS path segment, large community and unknown attribute: every data field of the API message is written by the exporter (in the literal or by an assignment) and read by the importer, except the two fields the importer is not meant to restore (listed with reasons); (2) no condition in an exporter reads a field of the destination object it has just created (such a guard is constant and silently drops the attribute); (3) Path.ToProto maps the hidden reason on every path to its return, and every hidden reason other than 'none' has a case that assigns a non-'none' API value; (4) the importer does not store into the interned (shared, cached) attribute block after it has been interned.",
+			Decided:     "(0) in the conversion functions reachable from the paired ToProto/FromProto entry points: no copy() into a destination made with length 0, and no scalar declared outside a conversion loop is read in an iteration before that iteration assigned it (element i is converted from element i alone); (1) for every pair (ToProto, FromProto) of route, path, BGP path, static path, prefix, IP, AS path segment, large community and unknown attribute: every data field of the API message is written by the exporter (in the literal or by an assignment) and read by the importer, except the two fields the importer is not meant to restore (listed with reasons); (2) no condition in an exporter reads a field of the destination object it has just created (such a guard is constant and silently drops the attribute); (3) Path.ToProto maps the hidden reason on every path to its return, and every hidden reason other than 'none' has a case that assigns a non-'none' API value; (4) the importer does not store into the interned (shared, cached) attribute block after it has been interned.",
 			NotDecided:  "that the values written are the right ones for each field (value equality of the round trip); deep copies vs. aliasing of slices.",
 			TrustedBase: stdTrusted,
 		},
 		Run: runC34,
 		Controls: []Control{
+			{Name: "cluster-list-copied-into-empty-slice", File: "route/bgp_path.go", Old: "\t\ta.ClusterList = make([]uint32, len(*b.ClusterList))\n", New: "\t\ta.ClusterList = make([]uint32, 0, len(*b.ClusterList))\n", Expect: "copy-has-room"},
+			{Name: "segment-type-carried-across-segments", File: "protocols/bgp/types/as_path.go", Old: "\tfor i := range segments {\n\t\ts := ASPathSegment{\n\t\t\tType: ASSet,\n\t\t\tASNs: make([]uint32, len(segments[i].Asns)),\n\t\t}\n\n\t\tif segments[i].AsSequence {\n\t\t\ts.Type = ASSequence\n\t\t}\n", New: "\tsegType := uint8(ASSequence)\n\tfor i := range segments {\n\t\tif !segments[i].AsSequence {\n\t\t\tsegType = ASSet\n\t\t}\n\t\ts := ASPathSegment{\n\t\t\tType: segType,\n\t\t\tASNs: make([]uint32, len(segments[i].Asns)),\n\t\t}\n", Expect: "element-conversion-is-stateless"},
 			{Name: "cluster-list-guard-on-destination", File: "route/bgp_path.go", Old: "\tif b.ClusterList != nil {\n\t\ta.ClusterList = make([]uint32, len(*b.ClusterList))", New: "\tif a.ClusterList != nil {\n\t\ta.ClusterList = make([]uint32, len(*b.ClusterList))", Expect: "exporter-guards-on-source"},
 			{Name: "importer-drops-originator-id", File: "route/bgp_path.go", Old: "\t\t\tOriginatorID:   pb.OriginatorId,\n", New: "", Expect: "api-field-agreement"},
 			{Name: "exporter-drops-otc", File: "route/bgp_path.go", Old: "\t\ta.OnlyToCustomer = b.BGPPathA.OnlyToCustomer\n", New: "", Expect: "api-field-agreement"},
@@ -59,6 +61,7 @@ var c34Pairs = []protoPair{
 
 func runC34(c *core.Ctx) {
 	p := c.P
+	conversionLoops(c)
 	for _, pr := range c34Pairs {
 		to, from := c.MustFunc(pr.to), c.MustFunc(pr.from)
 		nt := p.Named(pr.msgPkg, pr.msg)
